@@ -2,6 +2,7 @@
 pub mod qmodel;
 pub mod rdfstore;
 pub mod sess;
+pub mod sparql;
 pub mod mvccchain;
 pub mod txmgr;
 
